@@ -73,9 +73,12 @@ def prove(contracts, registry, repo=None, timeout_ms=20000, statics=(), cvc5_all
             items.append(dict(oid=ob.oid, kind=ob.kind, lineno=0, hash=hashlib.sha1(text.encode()).hexdigest()[:16],
                               smt2=text, note=ob.note))
     if jobs:
-        with mp.get_context("fork").Pool(min(16, len(jobs))) as pool:
+        # one fresh forked process per job: the pruning queries of the executor run in-process under a z3 resource limit, and what
+        # z3 can do within that limit depends on the state of its context (terms made by earlier jobs of the same worker) - with
+        # reused workers the set of explored paths changed from run to run
+        with mp.get_context("fork").Pool(min(16, len(jobs)), maxtasksperchild=1) as pool:
             merged = {}
-            for summary, its, used in pool.map(_gen_worker, jobs):
+            for summary, its, used in pool.map(_gen_worker, jobs, chunksize=1):
                 items.extend(its)
                 registry.used.update(used)
                 m = merged.get(summary["name"])
